@@ -98,9 +98,18 @@ contract(F, "TypeNormalizer._merge_literals", props=["C15"], params={"self": ("c
              # everything except possibly the last element is an original non-literal member: no literal member survives unmerged
              "literals-only-merged": ("implies(returned, forall(lambda k: implies(0 <= k and k < len(result) - 1, exists(lambda i: 0 <= i and i < len(args) "
                                       "and result[k] is args[i] and not " + IS_L.format(i="i") + "))))"),
+             # merging never grows the member list: at most ONE element is added for all literal members together, and only if there is
+             # a literal member to merge
+             "never-grows": "implies(returned, len(result) <= len(args))",
+             "no-literal-no-addition": ("implies(returned and forall(lambda i: implies(0 <= i and i < len(args), not " + IS_L.format(i="i") + ")), "
+                                        "len(result) == len(args) and forall(lambda k: implies(0 <= k and k < len(args), result[k] is args[k])))"),
          },
          loops={0: LoopSpec(inv=[
              "forall(lambda i: implies(0 <= i and i < _i and not " + IS_L.format(i="i") + ", exists(lambda k: 0 <= k and k < len(result) and result[k] is args[i])))",
              "forall(lambda k: implies(0 <= k and k < len(result), exists(lambda i: 0 <= i and i < _i and result[k] is args[i] and not " + IS_L.format(i="i") + ")))",
+             "len(result) <= _i",
+             "implies(len(lit_args) > 0, len(result) < _i)",
+             "implies(forall(lambda i: implies(0 <= i and i < _i, not " + IS_L.format(i="i") + ")), len(lit_args) == 0 and len(result) == _i and "
+             "forall(lambda k: implies(0 <= k and k < _i, result[k] is args[k])))",
          ])},
          scenarios=_merge_scenarios, cover=["returned"])
